@@ -146,3 +146,14 @@ def model_part(run, jobs):
         delays = [rng.choice([0, 1, 1, 2, 3, 5, 8]) for _ in range(rng.randint(0, 10))]
         add("COrder %s %s" % (cnat(w), czl(delays)), {"kind": "order", "w": w, "delays": delays}, nontrivial=len(delays) > 1)
     run.correspond("modelga", "C17", terms, cases, shard=60)
+    # a coqc shard that dies without any output was killed from outside (the machine's OOM killer when many checks
+    # run at once); such a shard carries no verdict, so it is evaluated once more.  Any shard with output counts.
+    killed = [d for d in run.disagreements if d.get("group") == "modelga" and d.get("coq_error") is not None
+              and not (d["coq_error"].get("log") or "").strip()]
+    if killed and len(killed) == len([d for d in run.disagreements if d.get("group") == "modelga"]):
+        import time
+        time.sleep(5)
+        run.disagreements = [d for d in run.disagreements if d.get("group") != "modelga"]
+        run.corr_groups.pop("modelga", None)
+        run.notes.append("%d correspondence shard(s) were killed without output (out of memory on the host); re-evaluated" % len(killed))
+        run.correspond("modelga", "C17", terms, cases, shard=60)
